@@ -678,6 +678,22 @@ def paging_grid(rows_for, hs, schemas=("vs_script", "vs_multi", "vs_table")):
                                                         "page +", "page +", "page -", "highlight_page %d" % r, "key %d 0" % XK["Next"]], tid))
 
 
+def reopen_grid(rows_for, hs, schemas=("vs_script", "vs_fluid", "vs_multi")):
+    """directed: a partial selection with a high index, then the segment is reopened over a shorter span (caret moved inside,
+    or Escape) and translated again into a shorter menu: 'ab' has x candidates, 'a' has y, the j-th 'a' candidate (index x+j of
+    the list for 'ab') is selected — every alignment of the old index with the last page of the new menu"""
+    for sid in schemas:
+        ps = SCHEMAS[sid]["pageSize"]
+        for x in (1, 2):
+            for y in range(1, 2 * ps + 2):
+                tid = "r_%s_%d_%d" % (sid, x, y)
+                rows_for[tid] = [("ab", "L%d" % k, "", "") for k in range(x)] + [("a", "S%d" % k, "", "") for k in range(y)]
+                for j in range(y):
+                    for mid in (["caret 1"], ["key %d 0" % XK["Escape"]], ["key %d 0" % XK["Left"]]):
+                        hs.append((sid, ["key 97 0", "key 98 0", "select %d" % (x + j)] + mid +
+                                   ["key %d 0" % XK["BackSpace"], "key %d 0" % XK["BackSpace"]], tid))
+
+
 def standard_histories(c, n_hist, n_ops, profile="mixed", schemas=None):
     """corpus first, then directed boundary grids, then seeded generation; returns (histories, rows_for)"""
     rows_for, hs = {}, []
@@ -685,6 +701,7 @@ def standard_histories(c, n_hist, n_ops, profile="mixed", schemas=None):
         rows_for["c%d" % k] = rows
         hs.append((sid, ops, "c%d" % k))
     paging_grid(rows_for, hs)
+    reopen_grid(rows_for, hs)
     schemas = schemas or list(SCHEMAS)
     for t in range(max(1, n_hist // 8)):
         for sid in schemas:
